@@ -57,6 +57,23 @@ CHECKS = {
         note="Loop harness bounds: N=2 (quick) / N<=3 (thorough) particles, d=1, <=2 (quick) / <=4 (thorough) iterations, schedules fixed 1/2(/4), adaptive with min_step 1/2 (and max_n_steps, unbounded in thorough; paths reaching the unrolling bound are counted as cut); user functions, proposal, generator and MCMC kernels are stubs (uninterpreted functions / symbolic streams / fake kernel modules); SMCSampler.sample is a logging-stripped copy of the current source with beta_tolerance 1/4. Atomicity of a write interrupted inside h5py and the /aspire_config, /flow groups (C14) are outside.",
         ref="6/C12",
     ),
+    "C14": dict(
+        engine="CH",
+        text="CrossHair explores every program of up to 3 (quick) / 4 (thorough) operations over 9 operation kinds (fit with/without path and overwrite, importance/SMC sampling with explicit, automatic or no checkpoint path, auto_checkpoint contexts with refit inside, resume_from_file then sample) on one file through the real Aspire.fit / sample_posterior / auto_checkpoint / resume_from_file / save_config / save_flow / load_flow; after every operation the stored proposal must be the one the stored checkpoint was weighted under, the stored configuration must name the sampler that wrote it, and a resumed sampler must not receive a population weighted under another proposal. Only 'Confirmed over all paths' counts; one condition per first operation keeps each search exhaustible.",
+        note="File, flow and samplers are dict-backed fakes (flow identity tags); four known-finding regions (C14-D8a..d, known_findings.json) are excluded by violated clause and operation kind and each is re-confirmed concretely on every run.",
+        ref="6/C14",
+    ),
+    "C16": dict(
+        text="For BaseSamples, Samples and SMCSamples built in the symbolic namespace with every cell a distinct variable and every optional-field subset: selection by slice, integer position, symbolic Boolean mask and symbolic integer index array, split-and-concatenate, pickle and flat/nested dict round trips, in sequences of up to 2 (quick) / 3 (thorough) operations, compared field by field (including log_w and weights, parameters, namespace, dtype tag, beta) with a plain-list reference model; evidence attached to a set is carried (a value that cannot be recomputed is planted).",
+        note="N=3 (quick) / 4 (thorough), d=2; sequences enumerated, contents symbolic; known finding C16-D11 (SMCSamples.concatenate drops beta).",
+        ref="6/C16",
+    ),
+    "C19": dict(
+        engine="CH",
+        text="CrossHair confirms over all paths that for every nesting (depth <= 3 quick, 4 thorough) of the real enable_pool/PoolHandler and auto_checkpoint contexts, with an exception injected at every position or none, both close_pool values, parallelize_prior on/off and pre-existing checkpoint defaults or none: log_likelihood, log_prior and _checkpoint_defaults are the identical objects after leaving each level, and each pool is closed exactly once iff asked.",
+        note="Pool is a fake counting close()/join(); an exception raised inside __enter__ itself is outside.",
+        ref="6/C19",
+    ),
     "C17": dict(
         text="The likelihood stub poses, at every call made during whole runs (initial draws, kernel target evaluations, post-mutation re-evaluation, final enlargement, resumed runs), the obligations that the sample set it receives carries a log_prior of the right length equal to PI of exactly those coordinates, and at the end that n_likelihood_evaluations equals the number of points it was asked for; also on sampler.log_prob directly (C05 harness) .",
         note="Loop harness bounds: N=2 (quick) / N<=3 (thorough) particles, d=1, <=2 (quick) / <=4 (thorough) iterations, schedules fixed 1/2(/4), adaptive with min_step 1/2 (and max_n_steps, unbounded in thorough; paths reaching the unrolling bound are counted as cut); user functions, proposal, generator and MCMC kernels are stubs (uninterpreted functions / symbolic streams / fake kernel modules); SMCSampler.sample is a logging-stripped copy of the current source with beta_tolerance 1/4.",
